@@ -96,7 +96,7 @@ type printer struct {
 func (p *printer) indent() {
 	if p.cfg.Indent&Space == 0 {
 		p.w.Write(bytes.Repeat([]byte{'\t'}, p.lv))
-	} else {
+	} else if p.cfg.Width > 0 {
 		p.w.Write(bytes.Repeat([]byte{' '}, p.lv*p.cfg.Width))
 	}
 }
